@@ -30,6 +30,8 @@ const POOL: &[&str] = &[
     "/a|", "/a.b|", ".b|", "/a", "/a.b", "@@/a|", "@@/a.b|", "/a*b|", "/a*b.c|",
     // two left-anchored wildcard rules in one bucket (a fused rule must keep every member anchored)
     "|https://x.com/a*b", "|https://x.com/a*c",
+    // a plain pattern that would mean something else if it were read as a regex (backslash class)
+    "adv\\d",
     // same bucket, masks that differ in exactly one bit the existing pairs do not cover
     // empty patterns (match everything) next to token-less partners with the same mask
     "*$image", "$image", "/a*b$image", "/a$image", "a^$image", "/a.b|$image",
